@@ -302,7 +302,12 @@ func checkMain(args []string) int {
 				}
 				continue
 			}
-			key := v.Kind + "|" + v.Msg + "|" + v.Where
+			// one replay per violation class (kind + head of the message + site)
+			head := v.Msg
+			if len(head) > 90 {
+				head = head[:90]
+			}
+			key := v.Kind + "|" + head + "|" + v.Where
 			if seenMsg[key] {
 				continue
 			}
@@ -474,7 +479,11 @@ func nativeReplay(r Run, replayPath string, p *sym.Program) (bool, string) {
 	if b, err := os.ReadFile(replayPath); err == nil {
 		json.Unmarshal(b, &kindDoc)
 	}
-	goArgs := []string{"test", "-tags", "verif", "-vet=off", "-count=1", "-timeout", "300s", "-run", "^TestVerifReplay$", "-overlay", ovPath, "-v"}
+	tmo := "300s"
+	if r.Synctest {
+		tmo = "90s" // virtual time: a replay that needs longer is hung (which is what a hang counterexample looks like)
+	}
+	goArgs := []string{"test", "-tags", "verif", "-vet=off", "-count=1", "-timeout", tmo, "-run", "^TestVerifReplay$", "-overlay", ovPath, "-v"}
 	if kindDoc.Kind == "race" {
 		// data races are confirmed by the native race detector (a few repetitions:
 		// it only sees the interleavings that actually happen)
@@ -503,7 +512,7 @@ func nativeReplay(r Run, replayPath string, p *sym.Program) (bool, string) {
 		// differ from the engine's - any assertion of the harness on this input
 		rep = strings.Contains(s, "REPLAY-FAIL: "+doc.Msg) || crash || (r.Synctest && strings.Contains(s, "REPLAY-FAIL: "))
 	case "deadlock":
-		rep = strings.Contains(s, "deadlock") || strings.Contains(s, "REPLAY-FAIL") || strings.Contains(s, "test timed out")
+		rep = strings.Contains(s, "deadlock") || strings.Contains(s, "REPLAY-FAIL") || strings.Contains(s, "test timed out") || strings.Contains(s, "panic: test timed out")
 	default:
 		rep = strings.Contains(s, "REPLAY-PANIC") || strings.Contains(s, "panic:") || strings.Contains(s, "fatal error:") || strings.Contains(s, "DATA RACE")
 	}
